@@ -108,7 +108,7 @@ def reader_opts(rng, fmt):
     if fmt in ("export", "tigerxml") and rng.random() < 0.3:
         o['continuous'] = True
     if fmt in ("brackets", "discobrackets") and rng.random() < 0.3:
-        o['brackets_firstid'] = rng.randint(2, 50)
+        o['brackets_firstid'] = rng.choice([0, 0, 1, rng.randint(2, 50)])
     return o
 
 
@@ -150,13 +150,17 @@ def brackets_case(rng):
 
 def export_case(rng):
     opts = reader_opts(rng, "export")
-    v4 = rng.random() < 0.5
+    v4file = rng.random() < 0.5
+    mixed = rng.random() < 0.25
+    v4 = v4file
     k = rng.randint(1, 4)
     corpus = []
     text = rng.choice(["", "%% header\n#FORMAT 4\n", "#BOT ORIGIN\n#EOT ORIGIN\n"])
     sid = rng.randint(1, 20)
     for i in range(k):
         t = abstract_tree(rng, disc=True, full=True)
+        if mixed:
+            v4 = rng.random() < 0.5     # the version is a property of each node line, not of the file
         if not v4:
             for n in trees.preorder(t):
                 n.data['lemma'] = "--"
